@@ -1384,10 +1384,13 @@ class Process(StateMachine, persistence.Savable, metaclass=ProcessStateMachineMe
                 # Everything nominal so transition to the next state
                 self.transition_to(next_state)
 
-            # A request made by a hook or a listener during the transition could only be registered as the
-            # interrupt action (the process is still stepping): carry it out now, or it would be lost
-            action = self._interrupt_action
-            if action is not None and not action.done() and not self.has_terminated():
+            # A request made by a hook or a listener during the transition (or while such a request was being
+            # carried out) could only be registered as the interrupt action, because the process is still
+            # stepping: carry it out now, or it would be lost
+            while not self.has_terminated():
+                action = self._interrupt_action
+                if action is None or action.done():
+                    break
                 action.run(None)
 
         finally:
